@@ -5,7 +5,8 @@
 From Coq Require Import String List Arith NArith ZArith Bool Lia Permutation.
 From J5V.lib Require Import Outcome.
 From J5V.model Require Import ReflectDesc ReflectSchema Reflect ExportForm Export ExportApi.
-From J5V.proofs Require Import ReflectProofs ExportProofs ReflectInvProofs.
+From J5V.proofs Require Import ReflectProofs ExportProofs ReflectInvProofs ReflectOwnProofs ReflectWeakProofs.
+From J5V.model Require Import ReflectOwn.
 Import ListNotations.
 Local Open Scope bool_scope.
 
@@ -265,22 +266,24 @@ Proof.
   intros H. rewrite api_entries_buckets, (add_structure_buckets W svcs _ _ (api_init_buckets W) H). reflexivity.
 Qed.
 
-(* the whole of C15 at the level of the API structure: for a descriptor set with distinct split
-   names, if APIFromImage succeeds then PackageSetFromSourceAPI on its result succeeds, every schema
+(* the whole of C15 at the level of the API structure: for EVERY descriptor set (no hypothesis: what
+   the round trip needs of a reflected set holds of every successful reflection, ReflectWeakProofs),
+   if APIFromImage succeeds then PackageSetFromSourceAPI on its result succeeds, every schema
    of every package and sub-package is found again under the name it is filed under and exports to
    exactly the same form, nothing else is in the rebuilt set, every reference is resolved *)
 Theorem api_roundtrip D svcs W fs api :
-  wf_keys D -> api_from_image D svcs W fs = Ok api ->
+  api_from_image D svcs W fs = Ok api ->
   exists S', import_packages api = ROk S' /\
     (forall k x, In (k, x) (api_entries api) -> exists r', lookup S' k = Some (Linked r') /\ export_root r' = x) /\
     (forall k, ~ In k (map fst (api_entries api)) -> lookup S' k = None) /\
     refs_resolved S' = true.
 Proof.
-  intros Hwf H. unfold api_from_image, api_of_set_from in H.
+  intros H. unfold api_from_image, api_of_set_from in H.
   destruct (add_structure W (api_init W) svcs) as [apiS|c] eqn:Es; cbn [lift obind] in H; [|discriminate].
   pose proof (add_structure_buckets W svcs _ _ (api_init_buckets W) Es) as HbS.
-  destruct (reflect D fs) as [S| | |] eqn:HS; cbn [obind] in H; try discriminate.
-  destruct (reflect_entries_ok D fs S Hwf HS) as (E2 & HndL & HimpL & HclL).
+  destruct (o_reflect D fs) as [[S ow]| | |] eqn:HO; cbn [omap obind fst] in H; try discriminate.
+  pose proof (o_reflect_ok D fs S ow HO) as HS.
+  destruct (reflect_entries_ok_any D fs S HS) as (E2 & HndL & HimpL & HclL).
   rewrite E2 in H. cbn [obind] in H.
   destruct (route_all apiS (export_entries (linked_entries S))) as [api0|c] eqn:Er; cbn [lift] in H; [|discriminate].
   inversion H; subst api0.
@@ -291,12 +294,13 @@ Qed.
 
 (* and it does succeed when reflection succeeds and every package name has exactly one version part
    followed by at most one more part *)
-Theorem api_from_image_ok D svcs W fs S apiS :
-  wf_keys D -> add_structure W (api_init W) svcs = ROk apiS ->
-  reflect D fs = Ok S -> packages_split S -> exists api, api_from_image D svcs W fs = Ok api.
+Theorem api_from_image_ok D svcs W fs S ow apiS :
+  add_structure W (api_init W) svcs = ROk apiS ->
+  o_reflect D fs = Ok (S, ow) -> packages_split S -> exists api, api_from_image D svcs W fs = Ok api.
 Proof.
-  intros Hwf Hst HS Hsp. unfold api_from_image, api_of_set_from. rewrite Hst. cbn [lift obind]. rewrite HS. cbn [obind].
-  destruct (reflect_entries_ok D fs S Hwf HS) as (E2 & _). rewrite E2. cbn [obind].
+  intros Hst HO Hsp. pose proof (o_reflect_ok D fs S ow HO) as HS.
+  unfold api_from_image, api_of_set_from. rewrite Hst. cbn [lift obind]. rewrite HO. cbn [omap obind fst].
+  destruct (reflect_entries_ok_any D fs S HS) as (E2 & _). rewrite E2. cbn [obind].
   destruct (route_all_ok (export_entries (linked_entries S)) apiS) as (api & Ha).
   - intros k x Hin. unfold export_entries in Hin. apply in_map_iff in Hin as ([k0 r0] & Hf & H0). cbn [fst snd] in Hf.
     inversion Hf; subst k x. unfold linked_entries in H0. apply in_flat_map in H0 as ([k1 e1] & Hin1 & Hx).
